@@ -146,6 +146,15 @@ def mutations(frame: bytes, rnd: random.Random, cmd: dict, n_random: int, full_f
                 if cmd["fr"] == "rtu":
                     out.append(("fieldcrc", bytes(m[:2]) + F.with_crc(bytes(m[2:-2]))))
     out.extend(resized(frame, rnd, cmd))
+    if cmd["fr"] in ("rtu", "tcp"):
+        # proper exception answers to this command (function | 0x80, every code, checksum right): never a result
+        fnc = {"read": 3, "write": 6, "wmulti": 16}.get(cmd["op"], 3)
+        codes = list(range(0, 13)) + [0x7F, 0x80, 0xFF] if not full_flips else range(256)
+        for code in codes:
+            if cmd["fr"] == "rtu":
+                out.append(("excframe", F.rtu_exception(cmd["addr"], fnc, code)))
+            else:
+                out.append(("excframe", F.tcp_exception(frame[:2], cmd["addr"], fnc, code)))
     if cmd["fr"] == "aa55" and len(frame) >= 9:
         # well-formed AA55 frames (length and checksum right) of another response type than the command expects
         own = int.from_bytes(frame[4:6], "big")
@@ -403,6 +412,22 @@ def inverter_requests(job) -> list[dict]:
     return out
 
 
+def inverter_concurrent(job) -> list[dict]:
+    """Several tasks poll ONE inverter object over Modbus/TCP at the same time (the same command objects are in flight
+    more than once): the transaction ids on the wire, in the order of transmission."""
+    fam, ka, ntasks, ncalls = job
+    from .checks_decode import device_regs
+    from .checks_inverter import serial_for
+    from .inv_driver import run_program
+    sim = {"regs": device_regs(fam, serial_for({"ET": "ETU", "DT": "DTU"}[fam]), 10000)}
+    spec = {"family": fam, "port": 502, "sim": sim, "retries": 1, "keep_alive": ka}
+    calls = [{"api": "read_runtime_data"}, {"api": "read_setting", "args": ["grid_export_limit"]}, {"api": "read_runtime_data"}]
+    tr = run_program({"inv": [spec], "calls": [], "tasks": [[dict(calls[(i + k) % 3]) for k in range(ncalls)] for i in range(ntasks)],
+                      "delay": 2})
+    ids = [int.from_bytes(bytes(ev["data"])[0:2], "big") for ev in tr["ev"] if ev["e"] == "SEND" and len(ev["data"]) >= 8]
+    return [{"kind": "txhist", "ids": ids, "mut": f"concurrent:{fam}:{'ka' if ka else 'nka'}:{ntasks}x{ncalls}"}] if ids else []
+
+
 def gen_txhist(tier: str) -> list[dict]:
     P, _, _ = _lib()
     objs = [P.ModbusTcpReadCommand(0xF7, 35100, 2), P.ModbusTcpWriteCommand(0xF7, 47000, 1),
@@ -500,6 +525,9 @@ def check(prop: str, tier: str, seed: int) -> int:
         jobs = [(fam, port, comm) for fam, port in (("ET", 8899), ("ET", 502), ("DT", 8899), ("DT", 502))
                 for comm in ((0, 1, 0x11, 0x7F, 0x80, 0xF6, 0xF7, 0xF8, 0xFE, 0xFF) if tier == "quick" else range(256))]
         for lst in engine.parallel_map("harness.checks_wire", "inverter_requests", jobs, procs=16, chunk=2):
+            cases += lst
+        cjobs = [(fam, ka, nt, nc) for fam in ("ET", "DT") for ka in (True, False) for nt in (2, 3, 4) for nc in (1, 2, 3)]
+        for lst in engine.parallel_map("harness.checks_wire", "inverter_concurrent", cjobs, procs=16, chunk=2):
             cases += lst
         own = ("C03.",)
         run.cov["rule"] = ("argument grid: all comm addresses 0..255, all counts 1..125, all even payload lengths 2..246, boundary and "
